@@ -203,6 +203,16 @@ void touch_optional(T t)
     (void)n;
 }
 
+// the (pointer, size, blockLength) constructor of entry views
+template<typename E>
+void touch_entry_ctor()
+{
+    typedef ::sbepp::byte_type_t<E> B;
+    B* p = nullptr;
+    E e{p, std::size_t{}, {}};
+    (void)e;
+}
+
 template<typename A>
 void touch_array_ro(A a)
 {
